@@ -275,8 +275,11 @@ class StmtMixin:
         if c is not None and key in c.loops:
             return c.loops[key]
         top = getattr(self, "top_contract", None)
-        if top is not None and c is not top:
-            return top.loops.get(key)      # loops of inlined callees may be specified by the function under verification
+        if top is not None and c is not top and key in top.loops:
+            return top.loops[key]          # loops of inlined callees may be specified by the function under verification
+        du = top.options.get("default_unroll") if top is not None else None
+        if du is not None:
+            return LoopSpec(unroll=du)     # bounded stand-ins: any loop without its own spec is unrolled to the stated bound
         return None
 
     def st_For(self, node, fr):
